@@ -274,4 +274,21 @@ CHECKS = {
         fold={'fault:': ('fault_classes_covered', 41)},
         assumptions=['not generated because the statement does not list them: a different server_nonce in resPQ (the server chooses it), corrupted pq, g, dh_prime, g_a, server_time'],
     ),
+    'C19': dict(
+        pkg='./c19', test='TestC19', level='exploration', helpers={'vdriver': './cmd/vdriver'},
+        quick=dict(shards=4, checks=10, budget_s=900),
+        thorough=dict(shards=4, checks=200, budget_s=3400),
+        level_text=('Falsification of reproducibility only: generated testing cannot observe where a value comes from, it can only reproduce a secret that was supposed to be '
+                    'unpredictable. Metamorphic: the process-global math/rand is seeded with a generated value before the draw and the draw is repeated - nonce, new_nonce, '
+                    'g_b of two complete key exchanges (child processes) and the SRP value A must differ. Seed recovery: the nanosecond window around NewMTProto / MakeGAB is '
+                    'recorded and every candidate seed in it (plus its us/ms/s roundings, 0, 1, pid) is replayed on a private math/rand source; reproducing the first nonce or '
+                    'the returned exponent means the secret was derived from the clock. A secret from the OS CSPRNG fails none of these except with probability ~2^-128. '
+                    'The draw paths are straight-line, so one execution covers the path; a source that is low-entropy in some other way (hostname, pid*time hash) escapes this check.'),
+        technique='metamorphic reseeding and clock-window seed recovery over generated seeds (rapid); falsification of unpredictability, not proof of provenance',
+        rule=('case = (kind in {reseed-nonces, reseed-exchange, reseed-srp, clock-nonce, clock-exponent}, seed value, g, password). Every case is non-trivial; distinct by hash of the case. '
+              'coverage.classes["seed-candidates-tried"] counts the candidate seeds replayed.'),
+        must_hit=['kind:reseed-nonces', 'kind:clock-nonce', 'kind:clock-exponent', 'kind:reseed-srp', 'seed-candidates-tried'],
+        assumptions=['the statement quantifies over code paths; this check executes the (straight-line) paths under generated environments and can only refute unpredictability',
+                     'the exponent\'s seed, if clock-derived, is read within 300 us of entering MakeGAB (it is needed before the exponentiations that dominate the call)'],
+    ),
 }
